@@ -125,17 +125,18 @@ theorem ofBE_bigToHash (g : Nat) (hg : g < 2^256) : ofBE (bigToHash g) = g := by
 /-- every place that carries a claim's global index carries the same value: for a canonical
     on-chain value `x` the certificate field decodes `x`, the commitment input and the FEP chunk
     are the 32-byte little-endian encoding of `x`, the wire and prover messages its 32-byte
-    big-endian encoding. -/
+    big-endian encoding, and the optimistic-mode signed commitment (`optimistichash`) again its 32-byte little-endian
+    encoding. -/
 theorem C19_consumers (x : Nat) (hc : Canonical x) :
     ∃ c, consumers x = some c ∧
       generate c.certField.1 c.certField.2.1 c.certField.2.2 = x ∧
-      ofLE c.hashInput = x ∧ ofLE c.fepChunk = x ∧ ofBE c.wire = x ∧ ofBE c.prover = x ∧
+      ofLE c.hashInput = x ∧ ofLE c.fepChunk = x ∧ ofBE c.wire = x ∧ ofBE c.prover = x ∧ ofLE c.optInput = x ∧
       c.hashInput.length = 32 ∧ c.wire.length = 32 := by
   obtain ⟨m, r, l, hd, _, _, hg⟩ := C19_canonical x hc
   have hx : x < 2^256 := by rcases hc with h | ⟨_, h⟩ <;> omega
   refine ⟨_, by simp only [consumers, hd]; rfl, ?_⟩
   simp only [hg]
-  refine ⟨trivial, ofLE_bigToLE32 x hx, ofLE_bigToLE32 x hx, ofBE_bigToHash x hx, ofBE_bigToHash x hx, ?_, ?_⟩
+  refine ⟨trivial, ofLE_bigToLE32 x hx, ofLE_bigToLE32 x hx, ofBE_bigToHash x hx, ofBE_bigToHash x hx, ofLE_bigToLE32 x hx, ?_, ?_⟩
   · unfold bigToLE32; simp; omega
   · simp [bigToHash]
 
